@@ -1,4 +1,4 @@
-import BlockCiphers.Api
+import BlockCiphers.Registry
 /-
 Model driver: one operation line in, one result line out (same protocol as /verif/harness).
 `nomodel` = no Lean model for this cipher/operation (the check then relies on the direct oracle only
@@ -26,7 +26,7 @@ def probeStr (bl : Nat) (k : Keyed) : String :=
   let d := match mapBlocks bl k.dec p with | some r => toHex r | none => "x"
   e ++ ":" ++ d
 
-def exec (t : List String) : String :=
+def execGeneric (t : List String) : String :=
   match t with
   | [op, c, k] =>
     match findCipher c, parseHex k with
@@ -84,6 +84,14 @@ def exec (t : List String) : String :=
     | none, _, _ => "nomodel"
     | _, _, _ => "bad-op"
   | _ => "nomodel"
+
+def exec (t : List String) : String :=
+  match t with
+  | [] => "bad-op"
+  | op :: rest =>
+    match findSpecial op with
+    | some f => f rest
+    | none => execGeneric t
 
 partial def loop (h : IO.FS.Stream) (out : IO.FS.Stream) : IO Unit := do
   let line ← h.getLine
